@@ -169,6 +169,10 @@ def run(c):
         if drv:
             correspond_all(c, drv, pairs)
             judge(c, drv, judged, "config.judge")
+        c.count("config.sizes", stats.get("size_cases", 0),
+                sample={"judge": "Load(Write(c)) == c through LoadConfigFile and byte-stable rewrite, for configurations whose "
+                                 "encoding has a chosen size (64 KiB .. 3.2 MB; thorough 16.8 MB) or a line start at a power of two",
+                        "largest_file_bytes": stats.get("size_largest_file_bytes", 0)})
         for v in viols:
             c.violation("%s: %s %s" % (v["kind"], v.get("config", ""), v.get("detail", "")[:600]),
                         {"input": v["input"], "kind": v["kind"]})
